@@ -234,6 +234,8 @@ def regUvRejects (require_up require_uv up uv : Bool) : Bool := (require_uv && (
 /-- `verify_safetynet_timestamp`: true = raises ValueError; `now_seconds` is `int(time.time())` -/
 def safetynetTimestampRejects (timestamp_ms now_seconds : Int) : Bool := (decide (timestamp_ms > ((now_seconds * (1000 : Int)) + ((((10 : Nat) * (1000 : Nat)) : Nat) : Int)))) || (decide (timestamp_ms < ((now_seconds * (1000 : Int)) - ((((10 : Nat) * (1000 : Nat)) : Nat) : Int))))
 
+def tpmEkuRuleIsContains : Bool := true
+
 def safetynetTimestampRequiresInt : Bool := true
 
 -- [defaults] extracted
